@@ -80,7 +80,8 @@ class LegacyPort:
     def readline(self):
         p = self.plan
         self.reads += 1
-        if (p["fault"] == "r1raise" and self.reads == 1) or (p["fault"] == "rNraise" and self.data_out and not self.raised):
+        if (p["fault"] == "r1raise" and self.reads == 1) or (p["fault"] == "r2raise" and self.reads == 2) \
+                or (p["fault"] == "rNraise" and self.data_out and not self.raised):
             self.raised = True
             self.log.append({"ev": "rx"})
             raise self.serial.SerialException("injected read failure")
@@ -235,12 +236,12 @@ def run(ctx):
             kind = rng.choice(["cmd", "qok", "qok", "qnook", "qnook", "noport", "notext"])
             fault = "none"
             if kind in ("cmd", "qok", "qnook") and rng.random() < 0.12:
-                fault = rng.choice(["wraise", "r1raise", "errline", "silent"] + (["rNraise"] if kind == "qok" else []))
+                fault = rng.choice(["wraise", "r1raise", "r2raise", "errline", "silent"] + (["rNraise"] if kind == "qok" else []))
             d = lambda: rng.choice([0, 0, 0, 0, 1, 1, 2, 3, 7, 50, 99, 100, 100, 101, 130])  # noqa: E731
             if kind in ("noport", "notext"):
                 s.append({"kind": kind, "d1": 0, "d2": 0, "fault": "none"})
             else:
-                s.append({"kind": kind, "d1": d() if fault != "rNraise" else rng.choice([0, 1, 5]), "d2": d() if kind == "qok" else 0, "fault": fault})
+                s.append({"kind": kind, "d1": (rng.choice([1, 2, 5, 100]) if fault == "r2raise" else d()) if fault != "rNraise" else rng.choice([0, 1, 5]), "d2": d() if kind == "qok" else 0, "fault": fault})
         vs.append(s)
     logs, nbad = judge_batch(ctx, "V", vs, "v")
     ctx.sample({"mode": "V", "script": vs[0], "log_head": logs[0][:8]})
